@@ -1504,7 +1504,9 @@ def rule_state_checked_first(model):
 
 
 RULES_PLAIN = [rule_state_checked_first, rule_mirror, rule_chunks, rule_encoder_twins, rule_cleanup_loop, rule_link_agreement, rule_path_stack, rule_apply_diff, rule_expand_all_isolation, rule_id_attr, rule_fresh_state, rule_sibling_scope]
-RULES = [_inl(r_) for r_ in RULES_PLAIN] if INLINED_VIEW else RULES_PLAIN
+RULES = [_inl(r_) for r_ in RULES_PLAIN] if INLINED_VIEW else [
+    (_inl(r_) if r_ in (rule_link_agreement, rule_state_checked_first)
+     else r_) for r_ in RULES_PLAIN]
 EXPLANATION = (
     'Stage extraction of the encoder and decoder pipelines and comparison '
     'of the decoder with the reversed inverse stage list; arithmetic '
